@@ -1339,6 +1339,7 @@ def _is_cfg(a, base_kind, T="int"):
 
 
 IDX_ROT = ["fx", "ct", "dy", "clt", "sv", "tp", "lit", "raw", "cla", "hy", "clv"]
+NO_SCALAR_CL = ("sum", "slice", "repeat")
 ARR_MIXED = [("cs_fb", "ds_db"), ("ds_db", "cs_fb"), ("ls_hb", "fs_fb"), ("fs_fb", "ls_hb"), ("hs_hb", "raw"), ("raw", "hs_hb"),
              ("nested", "ds_db"), ("fixed_nd", "dynamic_nd"), ("dynamic_nd", "hybrid_nd"), ("cs_db", "ls_db"), ("ls_fb", "cs_hb"),
              ("hs_db", "ds_hb"), ("ds_fb", "hs_fb"), ("cm_ds_db", "ds_db"), ("cs_fb", "cm_cs_fb"), ("cm_ls_hb", "hs_hb"),
@@ -1372,7 +1373,7 @@ def candidates_view(o, base_only=False):
     arrs = [a for a in o.args if a.typ == "arr"]
     out = []
 
-    def build(akinds, ik):
+    def build(akinds, ik, flip=False):
         cfg = []
         it = iter(akinds)
         for a in o.args:
@@ -1381,12 +1382,19 @@ def candidates_view(o, base_only=False):
             elif a.typ == "ia":
                 cfg.append(ArgCfg(ik, _t_for(a, ik)))
             else:
-                cfg.append(_is_cfg(a, ik))
+                c = _is_cfg(a, ik)
+                if c.kind == "cl" and o.name in NO_SCALAR_CL:
+                    # the operation does not compile with a clipped scalar (probed): use a run-time scalar for this array kind
+                    c = ArgCfg("rt", "int" if a.signed else "size_t")
+                if a.boolean and flip:
+                    c = ArgCfg("b" if c.kind == "tt" else "tt")
+                cfg.append(c)
         return cfg_str(cfg)
 
     has_idx = any(a.typ != "arr" for a in o.args)
+    has_bool = any(a.typ == "is" and a.boolean for a in o.args)
     for i, k in enumerate(ARR_KINDS):
-        out.append(build([k] * len(arrs), IDX_ROT[i % len(IDX_ROT)]))
+        out.append(build([k] * len(arrs), IDX_ROT[i % len(IDX_ROT)], flip=has_bool and i % 2 == 1))
     if len(arrs) >= 2:
         for i, (k1, k2) in enumerate(ARR_MIXED):
             out.append(build([k1, k2], IDX_ROT[i % len(IDX_ROT)]))
@@ -1394,6 +1402,9 @@ def candidates_view(o, base_only=False):
         for k in ("ds_db", "cs_fb", "ls_hb", "fs_hb", "hs_db"):
             for ik in IDX_ROT:
                 out.append(build([k] * len(arrs), ik))
+        if has_bool:
+            for i, k in enumerate(ARR_KINDS):
+                out.append(build([k] * len(arrs), IDX_ROT[i % len(IDX_ROT)], flip=i % 2 == 0))
     seen = set()
     res = []
     for c in out:
@@ -1640,11 +1651,14 @@ class Group:
             if o.result == "index":
                 # static knowledge first: it is known even when the call itself throws
                 e.add("out.tok(\"TR\"); c9::emit_index_traits<c9::rmcv<decltype(%s)>>(out);" % o.call.format(**names))
+            e.add("c9::emit_hook_phase(out, \"HK0\");")
             e.add("const auto r = %s;" % o.call.format(**names))
         if o.result == "index":
             if inst.cfg == "cx":
                 e.add("out.tok(\"TR\"); c9::emit_index_traits<c9::rmcv<decltype(r)>>(out);")
+                e.add("c9::emit_hook_phase(out, \"HK0\");")
             e.add("out.tok(\"RES\"); c9::emit_any(out, r);")
+            e.add("c9::emit_hook_phase(out, \"HK1\");")
         else:
             for a in o.args:
                 if a.typ == "arr":
@@ -1759,6 +1773,10 @@ def make_group(gid, o, rng, supported_cfgs, nbaked, max_cfgs, pinned=(), dims=No
             if ex == INVALID or ex == NOTHING or ex == ("V", []):
                 # constant configurations cannot carry a failing call (it does not compile)
                 continue
+            arrs = [v[a.name]["shape"] for a in o.args if a.typ == "arr"]
+            if arrs and tries < 150 and (min(int(np.prod(x)) for x in arrs) < 2 or max(int(np.prod(x)) for x in arrs) < 4):
+                # template shapes of array operands must not be trivial
+                continue
             if baked and not same_sig(o, baked[0], v):
                 continue
             if v in baked:
@@ -1773,7 +1791,13 @@ def make_group(gid, o, rng, supported_cfgs, nbaked, max_cfgs, pinned=(), dims=No
     if all_cfgs:
         return Group(gid, o, dims, baked, sig, cfgs)
     if o.family == "view":
-        base = [c for c in view_base_cfgs(o, small) if c in cfgs]
+        base = []
+        for c in view_base_cfgs(o, small):
+            twin = "|".join({"b": "tt", "tt": "b"}.get(x, x) for x in c.split("|"))
+            if c in cfgs:
+                base.append(c)
+            elif twin in cfgs:
+                base.append(twin)
         if o.weight > 1:
             base = base[::o.weight]     # expensive operation: every weight-th array kind (deterministic)
         extra = [c for c in cfgs if c not in base and o.weight == 1]
